@@ -79,7 +79,7 @@ class Ctx:
 
     def tlc(self, subsystem, module, cfg, name=None, workers=None, timeout=600,
             simulate=None, depth=None, cases_to=None, expect_violation=None,
-            coverage=False, files=None, count_states=True, seed=None, dfs=False):
+            coverage=False, files=None, count_states=True, seed=None, dfs=False, allow_fail=False, jopts=None):
         """Run TLC. Returns dict(generated, distinct, depth, cases, log, violated).
 
         cases_to: path (appended) receiving one JSON text per emitted CASE line.
@@ -96,7 +96,7 @@ class Ctx:
                 with open(os.path.join(d, fn), "w") as f:
                     f.write(content)
         workers = workers or self.workers
-        jopts = ["-Xss512m", "-XX:+UseParallelGC"]
+        jopts = ["-Xss512m", "-XX:+UseParallelGC"] + list(jopts or [])
         if dfs:
             jopts.append("-Dtlc2.tool.queue.IStateQueue=StateDeque")
         cmd = ["timeout", str(timeout), "java"] + jopts + ["-cp", TLA_CP, "tlc2.TLC",
@@ -159,6 +159,15 @@ class Ctx:
             if violated != expect_violation:
                 raise Broken("non-vacuity run %s: expected %s to be violated, got %r (log %s)"
                              % (name, expect_violation, violated, logp))
+            return info
+        if allow_fail and (violated or rc != 0 or err_lines):
+            # trace validation: a rejected trace is information for the caller, not a broken tool
+            info["errors"] = err_lines
+            try:
+                info["tail"] = "".join(open(logp).readlines()[-40:])
+            except Exception:
+                info["tail"] = ""
+            info["rejected"] = True
             return info
         if violated or (rc != 0) or err_lines:
             tail = ""
